@@ -480,6 +480,13 @@ impl<'a, 'ast> Visit<'ast> for Rewriter<'a> {
         if self.in_skip(ss) {
             return;
         }
+        // R1: `use ...;` inside a body is dropped (names resolve to the shims)
+        if let Stmt::Item(syn::Item::Use(_)) = st {
+            let (s, e) = self.src.range(st.span());
+            self.edit(s, e, String::new(), 0);
+            self.skip_ranges.push((s, e));
+            return;
+        }
         // R1: statements guarded by #[cfg(desync_verif)] are verification hooks, not part of the code
         let attrs: &[syn::Attribute] = match st {
             Stmt::Expr(Expr::Call(c), _) => &c.attrs,
@@ -851,6 +858,10 @@ fn main() {
             "--tmpl" => { tmpl = args[i + 1].clone(); i += 2; }
             "--out" => { outp = args[i + 1].clone(); i += 2; }
             "--map" => { mapp = args[i + 1].clone(); i += 2; }
+            "--unsafescan" => {
+                unsafescan(&repo, &args[i + 1..]);
+                return;
+            }
             "--lockscan" => {
                 lockscan(&repo, &args[i + 1..]);
                 return;
@@ -1232,6 +1243,67 @@ fn main() {
     j.push_str("]\n}\n");
     if !mapp.is_empty() {
         std::fs::write(&mapp, j).unwrap_or_else(|e| die(&format!("cannot write {}: {}", mapp, e)));
+    }
+}
+
+/// --unsafescan file...: every `unsafe` block with its enclosing fn, closure depth and the call the closure is an argument of
+fn unsafescan(repo: &str, files: &[String]) {
+    struct V<'a> { src: &'a SourceFile, fns: Vec<String>, calls: Vec<String>, closure_depth: usize, closure_call: Vec<String> }
+    impl<'a, 'ast> Visit<'ast> for V<'a> {
+        fn visit_expr_unsafe(&mut self, u: &'ast syn::ExprUnsafe) {
+            let (s, e) = self.src.range(u.span());
+            let txt = norm_ws(&self.src.text[s..e]);
+            println!("{}\t{}\t{}\t{}\t{}\t{}", self.src.rel, self.src.line_of(s), self.fns.last().cloned().unwrap_or_default(), self.closure_depth,
+                self.closure_call.last().cloned().unwrap_or_default(), txt);
+            visit::visit_expr_unsafe(self, u);
+        }
+        fn visit_expr_call(&mut self, c: &'ast syn::ExprCall) {
+            let name = if let Expr::Path(p) = &*c.func { p.path.segments.last().map(|s| s.ident.to_string()).unwrap_or_default() } else { String::new() };
+            self.calls.push(name);
+            visit::visit_expr_call(self, c);
+            self.calls.pop();
+        }
+        fn visit_expr_method_call(&mut self, m: &'ast syn::ExprMethodCall) {
+            self.calls.push(m.method.to_string());
+            visit::visit_expr_method_call(self, m);
+            self.calls.pop();
+        }
+        fn visit_expr_closure(&mut self, c: &'ast syn::ExprClosure) {
+            self.closure_depth += 1;
+            // the nearest enclosing call that is not a combinator on the closure's own result
+            let call = self.calls.iter().rev().find(|n| *n != "boxed" && *n != "detach").cloned().unwrap_or_default();
+            self.closure_call.push(call);
+            visit::visit_expr_closure(self, c);
+            self.closure_call.pop();
+            self.closure_depth -= 1;
+        }
+        fn visit_impl_item_fn(&mut self, f: &'ast syn::ImplItemFn) {
+            self.fns.push(f.sig.ident.to_string());
+            visit::visit_impl_item_fn(self, f);
+            self.fns.pop();
+        }
+        fn visit_item_fn(&mut self, f: &'ast syn::ItemFn) {
+            self.fns.push(f.sig.ident.to_string());
+            visit::visit_item_fn(self, f);
+            self.fns.pop();
+        }
+        fn visit_item_impl(&mut self, i: &'ast syn::ItemImpl) {
+            if i.unsafety.is_some() {
+                let (s, e) = self.src.range(i.span());
+                let hdr = norm_ws(&self.src.text[s..e]);
+                println!("{}\t{}\t<impl>\t0\t\t{}", self.src.rel, self.src.line_of(s), hdr);
+            }
+            visit::visit_item_impl(self, i);
+        }
+        fn visit_item_mod(&mut self, m: &'ast syn::ItemMod) {
+            if m.attrs.iter().any(|a| a.path().is_ident("cfg")) { return; }
+            visit::visit_item_mod(self, m);
+        }
+    }
+    for f in files {
+        let src = SourceFile::load(repo, f);
+        let mut v = V { src: &src, fns: vec![], calls: vec![], closure_depth: 0, closure_call: vec![] };
+        v.visit_file(&src.ast);
     }
 }
 
